@@ -203,3 +203,48 @@ ASSUMPTIONS = [
     "times survive a round trip to within one frame shift; printed figures are compared numerically within one unit of the last printed digit against float64 recomputation and as exact strings across worker counts",
     "duplicate utterance ids are malformed input and are not generated",
 ]
+
+
+def fidelity(seed, n_per_pipeline=2):
+    """Stub-fidelity probe (informational, never part of a verdict): the same pipelines with the
+    REAL spawn pool (2 workers, chunk size 1) must give the serial result, which is also what
+    every SimPool schedule has to give.  Real processes are not deterministic, so this cannot
+    be a deciding step; it only checks that the model and the real pool agree where they can."""
+    import json
+    import time
+
+    from simkit.core import derive_rng
+    from simkit import runner
+
+    t0 = time.time()
+    rows = []
+    for name in ("ali", "trn", "ctm", "tg", "stats", "subset", "chunk-workers"):
+        pl = PIPELINES[name]
+        done = 0
+        i = 0
+        while done < n_per_pipeline and i < 200:
+            sc = generate(derive_rng(seed, "fidelity-" + name, i), "quick", i, only=[name])
+            i += 1
+            if pl.size(sc) < 3 or sc.get("huge"):
+                continue
+            if name == "stats" and sc["what"] not in ("ali", "ref"):
+                continue
+            outs = []
+            for w in (0, 2):
+                with Scratch() as s:
+                    random.seed(12345)
+                    torch.manual_seed(12345)
+                    outs.append(pl.run(sc, s, SimConfig(w, 1, [], 4), RunResult()))
+            same = outs[0]["status"] == outs[1]["status"] and (outs[0]["status"] != [("rc", 0)] * len(outs[0]["status"]) or diff_snapshots(outs[0]["snap"], outs[1]["snap"]) is None) \
+                and outs[0].get("printed") == outs[1].get("printed")
+            rows.append({"pipeline": name, "utterances": pl.size(sc), "real_pool_equals_serial": bool(same), "status": [list(x) for x in outs[1]["status"]]})
+            done += 1
+    rep = {"seed": seed, "rows": rows, "agree": sum(r["real_pool_equals_serial"] for r in rows), "total": len(rows), "wall_s": round(time.time() - t0, 1),
+           "note": "informational: real multiprocessing spawn pool (2 workers, chunk size 1) vs the serial run; never affects any check's exit code"}
+    os.makedirs(runner.EVIDENCE, exist_ok=True)
+    with open(os.path.join(runner.EVIDENCE, "fidelity.json"), "w") as f:
+        json.dump(rep, f, indent=1)
+    for r in rows:
+        print(f"fidelity {r['pipeline']}: {'agrees' if r['real_pool_equals_serial'] else 'DIFFERS'} ({r['utterances']} utterances)")
+    print(f"selftest-fidelity: real pool agrees with the serial run in {rep['agree']}/{rep['total']} pipelines ({rep['wall_s']}s)")
+    return 0
